@@ -876,7 +876,7 @@ Import ListNotations.
 Open Scope Q_scope.
 Definition sbytes (l : list N) : string := fold_right (fun n s => String (Ascii.ascii_of_N n) s) EmptyString l.
 Definition P y m d a := {| p_year := y; p_month := m; p_day := d; p_amount := a |}.
-Definition M n c s t p := {| m_name := n; m_category := c; m_subcategory := s; m_tags := t; m_payments := p |}.
+Definition X n c s t p := {| t_merchant := n; t_category := c; t_subcategory := s; t_tags := t; t_pay := p |}.
 Definition W n v f := {| v_name := n; v_vars := v; v_filter := f |}.
 Definition N_ (x : Q) := EConst (CNum x).
 Definition S_ (s : string) := EConst (CStr s).
@@ -886,7 +886,9 @@ Definition C_ (f : string) (a : list expr) := ECall (Some f) a.
 
 (* the implementation's own verdicts: merchant -> (globals ok, per-view outcome) *)
 Definition table := list (string * (bool * list outcome)).
-Record tcase := { t_cfg : config; t_ms : list merchant; t_tab : table;
+(* t_txns: the TRANSACTIONS, interleaved as the implementation receives them; the merchants are the model's
+   own by_merchant of them *)
+Record tcase := { t_cfg : config; t_txns : list txn; t_tab : table;
                   t_accept : bool;      (* parse_sections accepted the file *)
                   t_run : option (list (string * (list string * Q))) }.
 Definition tab_row (t : table) (m : merchant) := match alookup (m_name m) t with Some r => r | None => (true, []) end.
@@ -904,7 +906,7 @@ Definition reason_ix (r : res bool) : nat :=
 Section One.
   Variable c : tcase.
   Definition cfg := t_cfg c.
-  Definition ms := t_ms c.
+  Definition ms := by_merchant (t_txns c).
   Definition fb_glob (m : merchant) := fst (tab_row (t_tab c) m).
   (* views are addressed by POSITION in the table (names may repeat) *)
   Fixpoint nth_outcome (l : list outcome) (i : nat) := match l, i with o :: _, O => o | _ :: r, S j => nth_outcome r j | [], _ => OFalse end.
@@ -1030,15 +1032,17 @@ def coq_outcome(x):
 def coq_case(case, main):
     ms = bm_order(case)
     mtxt = []
-    for m in ms:
-        ps = '; '.join('P %d %d %d %s' % (*map(int, t['d'].split('-')), q_lit(amt(t))) for t in m['txns'])
-        mtxt.append(f"M {coq_str(m['name'])} {coq_str(m['cat'])} {coq_str(m['sub'])} [{'; '.join(coq_str(t) for t in m_tags(m))}] [{ps}]")
+    for mi, ti in case['order']:
+        m, t = case['merchants'][mi], case['merchants'][mi]['txns'][ti]
+        mtxt.append("X %s %s %s [%s] (P %d %d %d %s)" % (coq_str(m['name']), coq_str(m['cat']), coq_str(m['sub']),
+                                                       '; '.join(coq_str(x) for x in t['tags']),
+                                                       *map(int, t['d'].split('-')), q_lit(amt(t))))
     views = '; '.join(f"W {coq_str(v['name'])} {coq_defs(v['vars'])} {coq_src(v['filter'])}" for v in case['views'])
     tab = []
     for name, row in main.get('own_rebuilt', {}).items():
         tab.append(f"({coq_str(name)}, ({'true' if row['globals'] == 'ok' else 'false'}, [{'; '.join(coq_outcome(x) for x in row['views'])}]))")
     if 'parse_error' in main:
-        return (f"{{| t_cfg := {{| g_vars := {coq_defs(case['globals'])}; g_views := [{views}] |}};\n   t_ms := []; t_tab := [];"
+        return (f"{{| t_cfg := {{| g_vars := {coq_defs(case['globals'])}; g_views := [{views}] |}};\n   t_txns := []; t_tab := [];"
                 f" t_accept := false; t_run := None |}}")
     run = main['run']
     if 'error' in run:
@@ -1051,7 +1055,7 @@ def coq_case(case, main):
             f"({coq_str(n)}, ([{'; '.join(coq_str(x) for x in mem)}], "
             f"{q_lit(Fraction(tot, 64) if tot is not None and not is_decimal(case) else sum((exact[x] for x in mem), Fraction(0)))}))"
             for n, mem, tot, _ in run['views']) + ']'
-    return (f"{{| t_cfg := {{| g_vars := {coq_defs(case['globals'])}; g_views := [{views}] |}};\n   t_ms := [{'; '.join(mtxt)}];\n"
+    return (f"{{| t_cfg := {{| g_vars := {coq_defs(case['globals'])}; g_views := [{views}] |}};\n   t_txns := [{'; '.join(mtxt)}];\n"
             f"   t_tab := [{'; '.join(tab)}];\n   t_accept := true; t_run := {exp} |}}")
 
 
@@ -1222,7 +1226,7 @@ def main(tier):
     if res['hygiene']:
         broken.append({'kind': 'hygiene', 'detail': res['hygiene']})
 
-    n = 600 if tier == 'quick' else 6000
+    n = 500 if tier == 'quick' else 6000
     rnd = random.Random(run.seed * 7919 + 10)
     cases = corpus_cases() + [gen_case(rnd) for _ in range(n)]
     jobs, spans = [], []
